@@ -572,3 +572,41 @@ Definition transport_res_view (h : headers) : headers :=
 (* lines the origin / client see: everything except names the transport owns *)
 Definition without (h : headers) (ks : list bytes) : headers :=
   filter (fun p => negb (mem (fst p) ks)) h.
+
+(* ------------------------------------------------------------------ *)
+(* Instance identity and chains of proxies                             *)
+(* ------------------------------------------------------------------ *)
+
+(* What a ViaModifier calls itself in the received-by position of its Via
+   entry: requestedBy ++ "-" ++ boundary.  The boundary is drawn at random
+   per instance (NewViaModifier -> randomBoundary); "names THIS instance"
+   means the whole pseudonym is equal: name AND boundary. *)
+Definition instance_tag (name boundary : bytes) : bytes := name ++ B "-" ++ boundary.
+
+(* the received Via list names the instance whose pseudonym is [tag] *)
+Definition names_tag (tag : bytes) (h : headers) : bool :=
+  existsb (entry_names tag) (via_entries h).
+
+(* a request passed from proxy to proxy: each hop applies its own stack to
+   what the previous hop sent; a hop that returns an error ends the chain
+   (a looping request is never sent on) *)
+Fixpoint chain (es : list env) (h : headers) : list req_out :=
+  match es with
+  | [] => []
+  | e :: r =>
+      let o := stack_req e h in
+      o :: match o_err o with
+           | None => chain r (o_hdr o)
+           | Some _ => []
+           end
+  end.
+
+(* the proxy's own entry is a single list element whose second field is its pseudonym *)
+Definition own_entry_wf (e : env) : bool :=
+  entry_names (e_self e) (own_via e) &&
+  list_eqb beqb (split_on comma (own_via e)) [own_via e].
+
+(* well-formed boundary as randomBoundary prints it: 20 lower-case hex digits *)
+Definition is_hex_lower (c : ascii) : bool := is_digit c || in_range 97 102 c.
+Definition boundary_wf (b : bytes) : bool :=
+  Nat.eqb (List.length b) 20 && forallb is_hex_lower b.
